@@ -8,6 +8,7 @@ import common
 import gen
 
 N = {"quick": 150, "thorough": 4000}
+LEAN_MODULE = "Pyab.Properties.C13_full"
 
 PAYLOADS = [
     "'+str(PWNED())+'", '"+str(PWNED())+"', "\\'+str(PWNED())+\\'", "'))+str(PWNED())+str(('", "' or PWNED() or '", "')==PWNED() or ('",
